@@ -904,6 +904,7 @@ void run_case(vf::Case& c)
     x.h          = vf::mix(hash_arr(x.shape, x.p->rank, (VF_PLO + k * VF_PSTEP) * 131 + 23), x.group);
     x.nontrivial = x.p->rank > 0;
     if (vf::want_sample("shape")) { vf::sample("shape", "extents<%s,%s> shape %s group %u: all %lld multi-indices through every access form", IDXN, x.p->name, x.desc.c_str(), x.group, product(x.shape, x.p->rank)); }
+    crumb_op(x, std::string("extents<") + IDXN + ">", "setup:extents(OtherIndexTypes...):N=rank_dynamic"); // faults before an operation's own breadcrumb
     dispatch<Run>(k, x);
 }
 } // namespace
